@@ -220,6 +220,10 @@ def assign_alphabet(A, names):
         "r=@[c]": {r: m.ExprMem(c, 32)},
         "r=@[a]+@[b]": {r: m.ExprMem(a, 32) + m.ExprMem(b, 32)},
         "r=@[b]-@[a]": {r: m.ExprMem(b, 32) - m.ExprMem(a, 32)},
+        # a pointer saved in another register before being advanced, then used ONLY as the address of a store (C37 copy-folded family)
+        "@[c]=b": {m.ExprMem(c, 32): b},
+        "@[c]=1": {m.ExprMem(c, 32): one},
+        "@[r]=a": {m.ExprMem(r, 32): a},
     }
     return [(n, table[n]) for n in names]
 
